@@ -123,7 +123,13 @@ def check(ctx):
             tail = rng.choice(["12345", "-77", "9", "+4096 "]) if ch == 32 else rng.choice(["12345", "7x", "", "00019 "])
             big.append("StrtoBig %s %d %d %s %d" % (fn, ch, k, fmt([ord(c) for c in tail]), 10))
     tb = ctx.drive(drv, big, "stdlib_big", timeout=1500, par=1)
-    bad = ctx.judge("StdlibTrace", [t, tb], shards=16)
+    # sorts interrupted at an instruction boundary by a complete sort + search of another array (interrupt / signal handler that sorts):
+    # each call's result depends on its own arguments only
+    inter = []
+    for size, n in ((4, 6), (8, 5), (3, 7), (64, 4)) + (((16, 5), (1, 12), (65, 4), (2, 20), (32, 16), (12, 30), (100, 6)) if ctx.thorough else ()):
+        inter += ["R %d" % rng.randrange(1, 10 ** 6), "QsortI %d 1 %s %d" % (size, fmt([rng.randrange(0, 9) for _ in range(n)]), 600 if ctx.thorough else 60)]
+    ti = ctx.drive(drv, inter, "stdlib_interrupted", timeout=1500, lines_per_proc=2)
+    bad = ctx.judge("StdlibTrace", [t, tb, ti], shards=16)
     for b in bad: b["driver"] = "drv_stdlib"
     # the second build configuration (size-optimised, plain char unsigned) on part of the executions
     ta = ctx.drive(build(ctx, alt=True), core.subset_executions(script, ctx.seed, 1.0 if ctx.thorough else 0.34), "stdlib_alt")
@@ -151,6 +157,7 @@ def replay(ctx, path):
         ctx.report(ctx.judge("StdlibTrace", [t]))
         return ctx.finish(rule="replay of " + path)
     if e["e"] == "Strto": ln = "Strto %s %s %d" % (e["fn"], fmt(e["text"]), e["base"])
+    elif e.get("nestline"): ln = e["nestline"]
     elif e["e"] == "Qsort": ln = "Qsort%s %d %d %s" % ("N" if e.get("nested") else "", e["size"], e["div"], fmt(e["keys"]))
     else: ln = "Bsearch%s %d %d %s %d" % ("N" if e.get("nested") else "", e["size"], e["div"], fmt(e["keys"]), e["key"])
     t = ctx.drive(drv, ["R 1", ln], "replay")
